@@ -305,7 +305,7 @@ def main():
     chk.assumptions = ['document order is computed by the harness from its own parse (refxml)', 'relative order of namespace nodes and attributes of one element is not checked',
                        'the order of whole documents relative to each other is not prescribed; only contiguity is checked']
     chk.ensure('plain', 'xvdrv')
-    n = 400 if chk.tier == 'quick' else 100000
+    n = 1500 if chk.tier == 'quick' else 100000
     chk.run_cases('c12', 'case', range(n))
     chk.run_cases('c12', 'multi_doc_case', range(n if chk.tier == 'quick' else n // 10))
     chk.finish(min_nontrivial=100, required_stats=('histories', 'union_triples', 'multi_document_unions', 'multi_documents_in_one_union_3'))
